@@ -279,6 +279,45 @@ def group_case(ctx):
     ctx.record(case, bool(rows))
 
 
+class _RevSet(set):
+    """A set whose iteration order is the reverse of the sorted order (membership unchanged)."""
+
+    def __iter__(self):
+        return iter(sorted(set.__iter__(self), reverse=True))
+
+
+def order_probe(ctx, form=None):
+    """F10 guard: the order of the instances of one question with pulldata() in several logic columns
+    must not depend on the iteration order of the set constants.EXTERNAL_INSTANCES (PYTHONHASHSEED).
+    The implementation is run with that set replaced by one that iterates in reverse sorted order."""
+    from pyxform import constants
+
+    rng = ctx.rng
+    if form is None:
+        cols = rng.sample(["calculation", "constraint", "relevant", "required", "read_only"], rng.randint(2, 5))
+        row = {"type": "text", "name": "q", "label": "Q"}
+        for i, c in enumerate(cols):
+            row[c] = f"pulldata('file{i}', 'a', 'b', 'c') = 'x'"
+        form = {"survey": [{"type": "text", "name": "p", "label": "P"}, row]}
+    case = {"form": form, "probe": "set-order"}
+    base = impl.run(form)
+    saved = constants.EXTERNAL_INSTANCES
+    constants.EXTERNAL_INSTANCES = _RevSet(saved)
+    try:
+        rev = impl.run(form)
+    finally:
+        constants.EXTERNAL_INSTANCES = saved
+    ctx.count("probe:set-order")
+    if base["ok"] and rev["ok"]:
+        a = [i["id"] for i in c09obs.observe(base["xform"], None)["instances"]]
+        b = [i["id"] for i in c09obs.observe(rev["xform"], None)["instances"]]
+        if a != b:
+            ctx.fail(Failure("instance-order-set-iteration",
+                             f"order of the pulldata instances follows the iteration order of a set: {a} vs {b}", case,
+                             extra={"site": "survey._generate_pulldata_instances"}))
+    ctx.record(case, True)
+
+
 def explore(ctx, factor, bs):
     rng = ctx.rng
     n = ctx.pick(700, 14000) * factor
@@ -291,6 +330,8 @@ def explore(ctx, factor, bs):
         reader_case(ctx)
     for i in range(ctx.pick(300, 3000) * factor):
         group_case(ctx)
+    for i in range(ctx.pick(20, 100)):
+        order_probe(ctx)
     ev = ctx.dist
     total = sum(v for k, v in ev.items() if k.startswith("impl:"))
     unsup = sum(v for k, v in ev.items() if k.startswith("impl:") and k.endswith("model:unsupported"))
@@ -347,7 +388,9 @@ def replay(ctx, payload, bs):
     case = payload.get("case") or (payload.get("correspondence_mismatches") or [{}])[0].get("case")
     if not case:
         return bs.proof_ok and bs.tables_ok
-    if "form" in case:
+    if case.get("probe") == "set-order":
+        order_probe(ctx, case["form"])
+    elif "form" in case:
         form_case(ctx, case["form"])
     elif "csv" in case:
         csv_check(ctx, case)
